@@ -68,6 +68,12 @@ def generate(seed, tier="quick"):
         kw.pop("max_prior_samples", None)
         kw["n_batches"] = rnd.choice([None, 1, 2, 3])
         op["kw"] = kw
+    if rnd.random() < 0.05:
+        # prior samples requested by COUNT: prior.sample (pm.draw, pm.logp) runs inside rejection_sample, then the
+        # cache path.  Every trial costs several pytensor evaluations, so only a bounded sample of crash points,
+        # preferring the call sites inside prior.py.
+        op = {"id": 0, "op": "rejection_by_count", "data": 0, "N": rnd.randint(4, 12), "source": "object", "in_memory": False,
+              "kw": {"n_linear_samples": 1, "n_batches": rnd.choice([1, 2]), "return_logprobs": rnd.random() < 0.7}}
     pk = rnd.random()
     if pk < 0.3:
         cfg["pool"] = {"kind": "serial"}
@@ -80,6 +86,9 @@ def generate(seed, tier="quick"):
     en = {"mode": "all" if tier == "thorough" else "thinned", "kind_rot": rnd.randrange(len(EXC_KINDS))}
     if use_dill:
         en["max_points"] = 24
+    if op["op"] == "rejection_by_count":
+        en["max_points"] = 12 if tier == "quick" else 40
+        en["prefer_file"] = "prior.py"
     return {"format": 1, "property": PROPERTY, "seed": seed, "config": cfg, "ops": [op], "schedule": None, "faults": [], "enumerate": en}
 
 
@@ -225,6 +234,8 @@ class Trialer:
             return joker.marginal_ln_likelihood(data, src, n_batches=op.get("n_batches"))
         if op["op"] == "rejection":
             return joker.rejection_sample(data, src, **op.get("kw", {}))
+        if op["op"] == "rejection_by_count":
+            return joker.rejection_sample(data, int(op["N"]), **op.get("kw", {}))
         return joker.iterative_rejection_sample(data, src, **op.get("kw", {}))
 
     def post_trial(self, label, site, err_or_none, returned, injected, marker, joker, rng, v, probes, waive_leak=False, ctx=None):
@@ -243,7 +254,15 @@ class Trialer:
         if isinstance(err_or_none, simpool.PoolWouldHang):
             v.append(Violation(PROPERTY, "C13.propagation", sig + ":worker-exception-cannot-be-rebuilt-in-parent:pool-would-hang", "fault %s: %s" % (label, str(err_or_none)[:400])))
         elif err_or_none is None:
-            v.append(Violation(PROPERTY, "C13.propagation", sig + ":fault-swallowed:" + (site[1] + "->" + site[3] if site else label), "fault %s at %s did not reach the caller (returned %s)" % (label, where, str(capture(returned))[:120])))
+            same = None
+            if getattr(self, "ref_out", None) is not None:
+                same = c10._same_output({"raised": None, "out": self.ref_out}, {"raised": None, "out": capture(returned)}) is None
+            if same:
+                # the call returned exactly what it returns without the fault: the failed call is one whose failure
+                # the code already absorbs in normal operation (e.g. pm.logp of a parameter that has no density)
+                probes["fault_absorbed_without_any_effect_on_the_result"] = probes.get("fault_absorbed_without_any_effect_on_the_result", 0) + 1
+            else:
+                v.append(Violation(PROPERTY, "C13.propagation", sig + ":fault-swallowed:" + (site[1] + "->" + site[3] if site else label), "fault %s at %s did not reach the caller: it returned %s, which differs from the fault-free result" % (label, where, str(capture(returned))[:120])))
         elif not in_chain(err_or_none, injected, marker):
             v.append(Violation(PROPERTY, "C13.propagation", sig + ":fault-replaced-by-unrelated-exception:" + (site[1] + "->" + site[3] if site else label), "fault %s at %s surfaced as %s without the injected error on its chain" % (label, where, exc_chain(err_or_none))))
         else:
@@ -283,6 +302,14 @@ class Trialer:
         except Exception as e:  # noqa: BLE001
             a, ea = None, exc_chain(e)
         jt, _, _ = self.fresh(rng=twin_rng)
+        if self.op["op"] == "rejection_by_count":
+            # the prior object itself takes part in this entry point: the twin gets a brand-new JokerPrior, so state a
+            # failed call left on the shared prior object cannot hide in both sides of the comparison
+            import thejoker as tj
+
+            from sim import world as _world
+
+            jt = tj.TheJoker(_world.get_prior(self.program["config"]["prior"], fresh=True), pool=jt.pool, rng=twin_rng, tempfile_path=self.w.tmpdir)
         try:
             b = capture(self.call(jt))
             eb = None
@@ -316,6 +343,7 @@ def run(program):
             res["harness_error"] = "fault-free dry run raised: %r" % (err0,)
             return res
         log.add("dry-run", op["op"], {"n_calls": len(trace)}, None)
+        T.ref_out = capture(out0)
         left = [n for n in T.tmp_names if os.path.exists(n)]
         if left:
             v.append(Violation(PROPERTY, "C13.leak", "C13:%s:cache-file-left-behind-after-normal-call" % op["op"], str(left)))
@@ -335,7 +363,13 @@ def run(program):
         if en.get("max_points") and len(ks) > en["max_points"]:
             r = tape.sub(program["seed"], "maxpoints")
             thinned += len(ks) - en["max_points"]
-            ks = sorted(r.sample(ks, en["max_points"]))
+            if en.get("prefer_file"):
+                pref = [k for k in ks if trace[k - 1][0] == en["prefer_file"] and ("pymc" in trace[k - 1][3] or "pytensor" in trace[k - 1][3] or "JokerSamples" in trace[k - 1][3])]
+                pref = pref[: max(1, en["max_points"] * 3 // 4)] if len(pref) <= en["max_points"] * 3 // 4 else sorted(r.sample(pref, en["max_points"] * 3 // 4))
+                rest = [k for k in ks if k not in set(pref)]
+                ks = sorted(pref + r.sample(rest, max(0, min(len(rest), en["max_points"] - len(pref)))))
+            else:
+                ks = sorted(r.sample(ks, en["max_points"]))
             extra_cap = 6
         else:
             extra_cap = None
